@@ -107,6 +107,10 @@ def gen_case(rng):
     if rng.random() < 0.45:
         k = rng.randrange(len(reqs))
         route_twin(rng, reqs, k, names)
+    # explicit routes: an include list made of LINE elements (fibres, boosters) of two or more adjacent OMS spells the
+    # whole route (explicit_path shortcut); companions between the same end points include one element of one of those OMS
+    if env['nsites'] >= 3 and rng.random() < 0.4:
+        line_include_group(rng, env, reqs, modes, band)
     case = {'kind': 'batch', 'env': env, 'modes': modes, 'requests': reqs, 'perm_seed': rng.randrange(1 << 30)}
     if rng.random() < 0.3:
         # API-level stream: PathRequest objects built directly, optional fields left out when they have their default
@@ -201,6 +205,53 @@ def pick_fixed(rng, reqs, modes, band):
     te['spacing'] = next(s for s in c13.SPACINGS if s >= m['min_spacing'])
     te['max-nb-of-channel'] = None
     return r
+
+
+def line_walks(env):
+    """walks s -> m -> t (-> u) along the lines of the environment, each hop with the uids of its line elements"""
+    hops = {}
+    for a, b, ab, ba in env['lines']:
+        hops[(a, b)] = [f'Edfa_booster_roadm {a}_to_fiber {a}{b}_0'] + [f'fiber {a}{b}_{k}' for k in range(len(ab))]
+        hops[(b, a)] = [f'Edfa_booster_roadm {b}_to_fiber {b}{a}_0'] + [f'fiber {b}{a}_{k}' for k in range(len(ba))]
+    walks = []
+    for (s_, m) in hops:
+        for (m2, t) in hops:
+            if m2 == m and t != s_:
+                walks.append([(s_, m), (m, t)])
+                for (t2, u) in hops:
+                    if t2 == t and u not in (s_, m):
+                        walks.append([(s_, m), (m, t), (t, u)])
+    return hops, walks
+
+
+def line_include_group(rng, env, reqs, modes, band):
+    hops, walks = line_walks(env)
+    if not walks:
+        return
+    walk = rng.choice(walks)
+    src, dst = walk[0][0], walk[-1][1]
+
+    def mk(nodes, hop_types):
+        m = rng.choice(modes)
+        sp = rng.choice([s_ for s_ in c13.SPACINGS if s_ >= m['min_spacing'] and int(band // s_) >= 2] or [50e9])
+        r = c13.request_json(len(reqs), src, dst, m['format'], sp, rng.random() < 0.25, bandwidth=rng.choice([100e9, 200e9]))
+        r['explicit-route-objects'] = include_objects(nodes, hop_types)
+        return r
+    # the request that spells its route: one element of EVERY hop, in order
+    full = [rng.choice(hops[h]) for h in walk]
+    main = mk(full, [rng.choice(['STRICT', 'LOOSE']) for _ in full])
+    main['twin_of'] = ['-', 'line_include_full']
+    group = [main]
+    for _ in range(rng.randint(1, 2)):
+        h = rng.choice(walk)
+        one = [rng.choice(hops[h])]
+        comp = mk(one, [rng.choice(['STRICT', 'LOOSE'])])
+        comp['request-id'] = str(len(reqs) + len(group))
+        comp['twin_of'] = [main['request-id'], 'line_include_one']
+        group.append(comp)
+    rng.shuffle(group)                                                # companions before and after the explicit request
+    for g in group:
+        reqs.insert(rng.randint(0, len(reqs)), g)
 
 
 def include_objects(nodes, hops):
@@ -335,7 +386,10 @@ def _plain(x, depth=0):
     if isinstance(x, _Node):
         return f'<node {x.uid}>'
     if type(x).__name__ == 'OMS':
-        return f'<oms {x.oms_id}>'
+        # the OMS objects hang on the network elements: their STRUCTURE is part of the network (the spectrum bitmap /
+        # service list they also carry belong to the spectrum assignment and are rebuilt by every planning() call)
+        return {'__class__': 'OMS', 'oms_id': x.oms_id, 'el_id_list': [str(u) for u in x.el_id_list],
+                'el_list': [getattr(e, 'uid', repr(e)) for e in x.el_list]}
     if hasattr(x, '__dict__'):
         return {'__class__': type(x).__name__,
                 **{k: _plain(v, depth + 1) for k, v in sorted(vars(x).items())}}
@@ -346,8 +400,9 @@ def snapshot(net):
     from gnpy.tools.json_io import network_to_json
     deep = {}
     for el in net.nodes():
-        # `oms` / `oms_list` are spectrum-assignment bookkeeping rebuilt by every build_oms_list() call (C15), not settings
-        deep[el.uid] = {k: _plain(v) for k, v in sorted(vars(el).items()) if k not in ('oms', 'oms_list')}
+        # Roadm.oms_list is bookkeeping appended to by every build_oms_list() call (never read); el.oms (the OMS object the
+        # element belongs to: oms_id, el_id_list, el_list) IS compared
+        deep[el.uid] = {k: _plain(v) for k, v in sorted(vars(el).items()) if k != 'oms_list'}
     j = json.dumps(network_to_json(net), sort_keys=True, default=str)
     return j, deep
 
@@ -842,8 +897,8 @@ def run(ctx):
         'to other elements reduced to their uid)',
         'figures handed to the validator are quantised to 1e-6 dB (validator tolerance: one unit); the python oracle '
         'compares the floats with 1e-9',
-        'Roadm.oms_list / element.oms (written by build_oms_list at the start of every planning() call) are left out of the '
-        'snapshot: oms_list grows by a duplicate of its ids at every call and is never read',
+        'Roadm.oms_list (appended to by build_oms_list at the start of every planning() call, never read) is left out of '
+        'the snapshot; the OMS object every line element belongs to is compared by structure (oms_id, el_id_list, el_list)',
         'the reference result of a request that belongs to a synchronization vector is the vector computed alone (disjoint '
         'routing makes a route depend on the partners by design; C12); whole batches and permutations are compared to it',
         'SimParams._shared_dict is snapshotted (deep) before and after every planning run and restored between runs',
